@@ -1,6 +1,7 @@
 package sim
 
 import (
+	"cosmossdk.io/math"
 	"math/big"
 	"time"
 
@@ -278,6 +279,314 @@ func init() {
 				}
 				return out
 			})
+		}
+		return steps
+	}
+
+	// dustReporter: governance lowers the oracle's minimum stake far below one token; a user becomes a reporter with one
+	// token, undelegates most of it (its stake is then worth no whole unit of power) and is the only one to report a
+	// tipped query; a second tipped query is reported by it together with a genesis validator
+	fragments["dustReporter"] = func(g *Gen) []func() [][]byte {
+		if len(g.c.W.Users) < 9 || len(g.spots) < 6 {
+			return nil
+		}
+		u := g.c.W.Users[len(g.c.W.Users)-7]
+		v0 := g.c.W.Vals[0]
+		one := func(signer *Account, m ...sdk.Msg) func() [][]byte {
+			return func() [][]byte {
+				if g.tb.Used(signer) {
+					return nil
+				}
+				return [][]byte{g.tx(signer, m...)}
+			}
+		}
+		tip := func(q []byte) func() [][]byte {
+			return func() [][]byte {
+				if s := g.free(g.user); s != nil {
+					return [][]byte{g.tx(s, &oracletypes.MsgTip{Tipper: s.Bech(), QueryData: q, Amount: rawCoin(2_000_000)})}
+				}
+				return nil
+			}
+		}
+		steps := []func() [][]byte{wait, wait, wait, wait, wait, wait}
+		steps = append(steps, g.govSteps(&oracletypes.MsgUpdateParams{Authority: govAddr(), Params: oracletypes.Params{MinStakeAmount: math.NewInt(1)}})...)
+		steps = append(steps,
+			one(u, &stakingtypes.MsgDelegate{DelegatorAddress: u.Bech(), ValidatorAddress: v0.ValAdr.String(), Amount: sdk.NewInt64Coin(Denom, 1_000_000)}),
+			one(u, &reportertypes.MsgCreateReporter{ReporterAddress: u.Bech(), CommissionRate: math.LegacyNewDecWithPrec(5, 2), MinTokensRequired: math.NewInt(1_000_000)}),
+			one(u, &stakingtypes.MsgUndelegate{DelegatorAddress: u.Bech(), ValidatorAddress: v0.ValAdr.String(), Amount: sdk.NewInt64Coin(Denom, 600_000)}))
+		for i := 0; i < 12; i++ {
+			steps = append(steps, wait) // the governance proposal passes meanwhile
+		}
+		for i := 0; i < 3; i++ {
+			steps = append(steps, tip(g.spots[4]),
+				one(u, &oracletypes.MsgSubmitValue{Creator: u.Bech(), QueryData: g.spots[4], Value: Uint256Value(big.NewInt(777))}), wait, wait, wait,
+				tip(g.spots[5]),
+				func() [][]byte {
+					var out [][]byte
+					out = append(out, one(u, &oracletypes.MsgSubmitValue{Creator: u.Bech(), QueryData: g.spots[5], Value: Uint256Value(big.NewInt(778))})()...)
+					out = append(out, one(v0.Op, &oracletypes.MsgSubmitValue{Creator: v0.Op.Bech(), QueryData: g.spots[5], Value: Uint256Value(big.NewInt(779))})()...)
+					return out
+				}, wait, wait, wait)
+		}
+		return steps
+	}
+
+	// twinReportsStakeChange: in ONE block a reporter reports a tipped query, a user with bonded stake selects that
+	// reporter, and the reporter reports a second tipped query: two stake snapshots of one reporter at one height with
+	// different contents (the reward of each report has to be split by its own snapshot)
+	fragments["twinReportsStakeChange"] = func(g *Gen) []func() [][]byte {
+		if len(g.c.W.Users) < 10 || len(g.spots) < 6 {
+			return nil
+		}
+		steps := []func() [][]byte{wait, wait, wait, wait, wait, wait}
+		for round := 0; round < 3; round++ {
+			round := round
+			u := g.c.W.Users[len(g.c.W.Users)-8-round%2]
+			rep := g.c.W.Vals[round%g.c.W.Cfg.NumVals].Op
+			val := g.c.W.Vals[0]
+			steps = append(steps,
+				func() [][]byte {
+					var out [][]byte
+					if !g.tb.Used(u) {
+						out = append(out, g.tx(u, &stakingtypes.MsgDelegate{DelegatorAddress: u.Bech(), ValidatorAddress: val.ValAdr.String(), Amount: sdk.NewInt64Coin(Denom, int64(3_000_000+round*1_111_111))}))
+					}
+					for _, q := range [][]byte{g.spots[4], g.spots[5]} {
+						if s := g.free(g.user); s != nil {
+							out = append(out, g.tx(s, &oracletypes.MsgTip{Tipper: s.Bech(), QueryData: q, Amount: rawCoin(3_000_000)}))
+						}
+					}
+					return out
+				},
+				func() [][]byte {
+					if g.tb.Used(rep) || g.tb.Used(u) {
+						return nil
+					}
+					// three transactions in this order; the reporter signs two of them (consecutive sequence numbers)
+					first := g.tb.Tx(rep, &oracletypes.MsgSubmitValue{Creator: rep.Bech(), QueryData: g.spots[4], Value: Uint256Value(big.NewInt(int64(6100 + round)))})
+					var sel sdk.Msg = &reportertypes.MsgSelectReporter{SelectorAddress: u.Bech(), ReporterAddress: rep.Bech()}
+					if _, err := g.c.App.ReporterKeeper.Selectors.Get(g.c.CommittedCtx(), u.Addr.Bytes()); err == nil {
+						sel = &reportertypes.MsgSwitchReporter{SelectorAddress: u.Bech(), ReporterAddress: rep.Bech()}
+					}
+					mid := g.tb.Tx(u, sel)
+					second := g.tb.Tx(rep, &oracletypes.MsgSubmitValue{Creator: rep.Bech(), QueryData: g.spots[5], Value: Uint256Value(big.NewInt(int64(6200 + round)))})
+					var out [][]byte
+					for _, t := range [][]byte{first, mid, second} {
+						if t != nil {
+							out = append(out, t)
+						}
+					}
+					return out
+				}, wait, wait, wait, wait)
+		}
+		return steps
+	}
+
+	// movedStake: a backer's stake leaves the validator it was on when the report was made, in two ways at once, and the
+	// report is disputed. kind "unbond+redelegate": 40 % is undelegated, 60 % redelegated, major dispute (everything is
+	// taken: the whole unbonding entry and the redelegated rest). kind "two-destinations": 2 % is redelegated to the
+	// validator with the lower address, 98 % to the other, minor dispute (5 %: all of the first destination and a part
+	// of the second)
+	moved := func(kind string) func(g *Gen) []func() [][]byte {
+		return func(g *Gen) []func() [][]byte {
+			n := g.c.W.Cfg.NumVals
+			if n < 3 || len(g.c.W.Users) < 11 {
+				return nil
+			}
+			u := g.c.W.Users[len(g.c.W.Users)-10]
+			a := g.c.W.Vals[1].Op
+			src, d1, d2 := g.c.W.Vals[0], g.c.W.Vals[1], g.c.W.Vals[2]
+			if string(d2.ValAdr) < string(d1.ValAdr) {
+				d1, d2 = d2, d1
+			}
+			one := func(signer *Account, m sdk.Msg) func() [][]byte {
+				return func() [][]byte {
+					if g.tb.Used(signer) {
+						return nil
+					}
+					return [][]byte{g.tx(signer, m)}
+				}
+			}
+			coin := func(x int64) sdk.Coin { return sdk.NewInt64Coin(Denom, x) }
+			var reported uint64
+			report := func() [][]byte {
+				out := g.reportCycle(a, 4747)
+				if out != nil {
+					reported = uint64(g.c.Height + 1)
+				}
+				return out
+			}
+			dispute := func(cat disputetypes.DisputeCategory, pct int64) func() [][]byte {
+				return func() [][]byte {
+					s := g.free(g.user)
+					if s == nil || reported == 0 {
+						return nil
+					}
+					for i := len(g.Reports) - 1; i >= 0; i-- {
+						r := g.Reports[i].R
+						if r.Reporter == a.Bech() && r.BlockNumber == reported {
+							return [][]byte{g.tx(s, &disputetypes.MsgProposeDispute{Creator: s.Bech(), Report: &r, DisputeCategory: cat, Fee: rawCoin(int64(r.Power) * 1_000_000 * pct / 100)})}
+						}
+					}
+					return nil
+				}
+			}
+			steps := []func() [][]byte{wait, wait, wait, wait, wait, wait,
+				one(u, &stakingtypes.MsgDelegate{DelegatorAddress: u.Bech(), ValidatorAddress: src.ValAdr.String(), Amount: coin(10_000_000)}),
+				one(u, &reportertypes.MsgSelectReporter{SelectorAddress: u.Bech(), ReporterAddress: a.Bech()}),
+				report, wait}
+			if kind == "unbond+redelegate" {
+				steps = append(steps,
+					one(u, &stakingtypes.MsgUndelegate{DelegatorAddress: u.Bech(), ValidatorAddress: src.ValAdr.String(), Amount: coin(4_000_000)}),
+					one(u, &stakingtypes.MsgBeginRedelegate{DelegatorAddress: u.Bech(), ValidatorSrcAddress: src.ValAdr.String(), ValidatorDstAddress: d2.ValAdr.String(), Amount: coin(6_000_000)}),
+					wait, dispute(disputetypes.Major, 100), wait)
+			} else {
+				steps = append(steps,
+					one(u, &stakingtypes.MsgBeginRedelegate{DelegatorAddress: u.Bech(), ValidatorSrcAddress: src.ValAdr.String(), ValidatorDstAddress: d1.ValAdr.String(), Amount: coin(200_000)}),
+					one(u, &stakingtypes.MsgBeginRedelegate{DelegatorAddress: u.Bech(), ValidatorSrcAddress: src.ValAdr.String(), ValidatorDstAddress: d2.ValAdr.String(), Amount: coin(9_800_000)}),
+					wait, dispute(disputetypes.Minor, 5), wait)
+			}
+			return steps
+		}
+	}
+	fragments["movedStakeUnbondRedelegate"] = moved("unbond+redelegate")
+	fragments["movedStakeTwoDestinations"] = moved("two-destinations")
+
+	// teamRotation: the team votes on an open dispute (no quorum), hands the team role to an address that does not vote,
+	// and the voting period ends: the tally at the beginning of that block has to cope with a team that "did not vote"
+	fragments["teamRotation"] = func(g *Gen) []func() [][]byte {
+		n := g.c.W.Cfg.NumVals
+		if n < 2 || len(g.c.W.Users) < 4 {
+			return nil
+		}
+		rep := g.c.W.Vals[n-1].Op
+		team := g.c.W.Team
+		heir := g.c.W.Users[len(g.c.W.Users)-2]
+		report := func() [][]byte { return g.reportCycle(rep, 888) }
+		propose := func() [][]byte {
+			r, ok := g.lastReportOf(rep.Bech(), nil)
+			s := g.free(g.user)
+			if !ok || s == nil {
+				return nil
+			}
+			return [][]byte{g.tx(s, &disputetypes.MsgProposeDispute{Creator: s.Bech(), Report: &r, DisputeCategory: disputetypes.Warning, Fee: rawCoin(int64(r.Power) * 1_000_000 / 100)})}
+		}
+		vote := func() [][]byte {
+			if g.tb.Used(team) {
+				return nil
+			}
+			var id uint64
+			_ = g.c.App.DisputeKeeper.Disputes.Walk(g.c.CommittedCtx(), nil, func(k uint64, d disputetypes.Dispute) (bool, error) {
+				if d.DisputeStatus == disputetypes.Voting && d.InitialEvidence.Reporter == rep.Bech() {
+					id = k
+				}
+				return false, nil
+			})
+			if id == 0 {
+				return nil
+			}
+			return [][]byte{g.tx(team, &disputetypes.MsgVote{Voter: team.Bech(), Id: id, Vote: disputetypes.VoteEnum_VOTE_SUPPORT})}
+		}
+		rotate := func() [][]byte {
+			if g.tb.Used(team) {
+				return nil
+			}
+			return [][]byte{g.tx(team, &disputetypes.MsgUpdateTeam{CurrentTeamAddress: team.Bech(), NewTeamAddress: heir.Bech()})}
+		}
+		end := func() [][]byte { g.ForceGap = 48*time.Hour + time.Minute; return nil }
+		return []func() [][]byte{wait, wait, wait, wait, wait, wait, report, report, wait, propose, wait, vote, rotate, end, wait, wait}
+	}
+
+	// unbondedValidatorDispute: a backer's stake sits with the smallest validator when the report is made; that validator
+	// misses blocks, is jailed and - three weeks later - fully unbonded, the backer still delegated to it; then the old
+	// report is disputed (minor)
+	fragments["unbondedValidatorDispute"] = func(g *Gen) []func() [][]byte {
+		n := g.c.W.Cfg.NumVals
+		if n < 4 || len(g.c.W.Users) < 12 {
+			return nil
+		}
+		u := g.c.W.Users[len(g.c.W.Users)-11]
+		small, a := g.c.W.Vals[n-1], g.c.W.Vals[0].Op
+		one := func(signer *Account, m sdk.Msg) func() [][]byte {
+			return func() [][]byte {
+				if g.tb.Used(signer) {
+					return nil
+				}
+				return [][]byte{g.tx(signer, m)}
+			}
+		}
+		var reported uint64
+		report := func() [][]byte {
+			out := g.reportCycle(a, 4848)
+			if out != nil {
+				reported = uint64(g.c.Height + 1)
+			}
+			return out
+		}
+		down := func() [][]byte {
+			g.downVal, g.downUntil, g.downDone = string(small.ConsAdr), g.c.Height+10, true
+			return nil
+		}
+		longGap := func() [][]byte { g.ForceGap = 22 * 24 * time.Hour; return nil }
+		dispute := func() [][]byte {
+			s := g.free(g.user)
+			if s == nil || reported == 0 {
+				return nil
+			}
+			for i := len(g.Reports) - 1; i >= 0; i-- {
+				r := g.Reports[i].R
+				if r.Reporter == a.Bech() && r.BlockNumber == reported {
+					return [][]byte{g.tx(s, &disputetypes.MsgProposeDispute{Creator: s.Bech(), Report: &r, DisputeCategory: disputetypes.Minor, Fee: rawCoin(int64(r.Power) * 1_000_000 * 5 / 100)})}
+				}
+			}
+			return nil
+		}
+		steps := []func() [][]byte{wait, wait, wait, wait, wait, wait,
+			one(u, &stakingtypes.MsgDelegate{DelegatorAddress: u.Bech(), ValidatorAddress: small.ValAdr.String(), Amount: sdk.NewInt64Coin(Denom, 10_000_000)}),
+			one(u, &reportertypes.MsgSelectReporter{SelectorAddress: u.Bech(), ReporterAddress: a.Bech()}),
+			report, wait, down}
+		for i := 0; i < 13; i++ {
+			steps = append(steps, wait)
+		}
+		return append(steps, longGap, wait, wait, dispute, wait)
+	}
+
+	// raisedMinimum: governance raises the oracle's minimum stake to 2.5 tokens; a reporter with 2.2 tokens (enough whole
+	// tokens, not enough stake) then tries a tipped query and the FIRST report of a deposit query that has no round yet
+	fragments["raisedMinimum"] = func(g *Gen) []func() [][]byte {
+		if len(g.c.W.Users) < 12 || len(g.spots) < 6 {
+			return nil
+		}
+		u := g.c.W.Users[len(g.c.W.Users)-12]
+		v0 := g.c.W.Vals[0]
+		one := func(signer *Account, m ...sdk.Msg) func() [][]byte {
+			return func() [][]byte {
+				if g.tb.Used(signer) {
+					return nil
+				}
+				return [][]byte{g.tx(signer, m...)}
+			}
+		}
+		const id = 22
+		dep := DepositValue([]byte{id, 4, 4}, g.c.W.Users[0].Bech(), new(big.Int).Mul(big.NewInt(2), big.NewInt(1e18)), big.NewInt(0))
+		steps := []func() [][]byte{wait, wait, wait, wait, wait, wait}
+		steps = append(steps, g.govSteps(&oracletypes.MsgUpdateParams{Authority: govAddr(), Params: oracletypes.Params{MinStakeAmount: math.NewInt(2_500_000)}})...)
+		steps = append(steps,
+			one(u, &stakingtypes.MsgDelegate{DelegatorAddress: u.Bech(), ValidatorAddress: v0.ValAdr.String(), Amount: sdk.NewInt64Coin(Denom, 2_200_000)}),
+			one(u, &reportertypes.MsgCreateReporter{ReporterAddress: u.Bech(), CommissionRate: math.LegacyNewDecWithPrec(5, 2), MinTokensRequired: math.NewInt(1_000_000)}))
+		for i := 0; i < 12; i++ {
+			steps = append(steps, wait)
+		}
+		for i := 0; i < 2; i++ {
+			steps = append(steps,
+				func() [][]byte {
+					if s := g.free(g.user); s != nil {
+						return [][]byte{g.tx(s, &oracletypes.MsgTip{Tipper: s.Bech(), QueryData: g.spots[4], Amount: rawCoin(2_000_000)})}
+					}
+					return nil
+				},
+				one(u, &oracletypes.MsgSubmitValue{Creator: u.Bech(), QueryData: g.spots[4], Value: Uint256Value(big.NewInt(901))}),
+				one(u, &oracletypes.MsgSubmitValue{Creator: u.Bech(), QueryData: BridgeQuery(true, id), Value: dep}),
+				wait, wait)
 		}
 		return steps
 	}
